@@ -62,6 +62,15 @@ def record_specs(draw, min_n=2, max_n=3000, small_max=48, kinds=None, amp_lo=-6,
         spec["k"] = "dyadic"
     else:
         n = draw(st.integers(min_n, max_n))
+        # one recipe record in three gets a *special* length near the drawn one: an exact power of two (no FFT padding needed,
+        # whole blocks), 2^k +- 1, or a multiple of 100 (whole seconds at the usual sampling rates) - lengths a uniform draw
+        # practically never hits, and on which padded / blocked / windowed code paths differ (DESIGN 8.5, round 6)
+        sn = draw(st.integers(0, 11))
+        if sn >= 8 and n >= 8:
+            p2 = 1 << (n.bit_length() - 1)
+            cand = {8: p2, 9: p2, 10: p2 + 1, 11: (n // 100) * 100}[sn] if sn != 10 or (n % 2) else p2 - 1
+            if min_n <= cand <= max_n and cand >= 2:
+                n = cand
         spec["n"] = n
         spec["amp"] = draw(amp_exps(amp_lo, amp_hi))
         if k in ("noise", "walk", "quake"):
@@ -75,6 +84,8 @@ def record_specs(draw, min_n=2, max_n=3000, small_max=48, kinds=None, amp_lo=-6,
         if k in ("pulse", "step"):
             spec["at"] = draw(st.integers(0, n - 1))
             spec["w"] = draw(st.integers(1, max(1, n // 4)))
+    if draw(st.integers(0, 7)) == 0:
+        spec["neg"] = True  # the whole record negated: downward pulses / steps, one-signed non-positive records
     if allow_zero_runs and draw(st.integers(0, 5)) == 0:
         spec["lead0"] = draw(st.integers(1, 6))
     if allow_zero_runs and draw(st.integers(0, 5)) == 0:
@@ -126,6 +137,8 @@ def build(spec):
             raise ValueError("unknown record kind %r" % k)
         a = a * amp
     a = np.where(np.abs(a) < 1e-200, 0.0, a)  # no subnormal / near-underflow samples (see _fl): recipes can produce them too
+    if spec.get("neg"):
+        a = 0.0 - a  # (0.0 - a, not -a: no negative zeros are introduced)
     if spec.get("lead0"):
         a = np.concatenate([np.zeros(spec["lead0"]), a])
     if spec.get("trail0"):
